@@ -33,6 +33,15 @@ from .errors import (
 )
 from .regex import RegexTimeoutError
 
+# Verification hook (add-only instrumentation). It can only ever fire when the
+# environment variable MICROJS_VERIF=1 was set at import time AND a harness has
+# assigned a callable to _VERIF_HOOK. It is called as _VERIF_HOOK(vm) right
+# before the limit check that precedes every interpreter step.
+import os as _os
+
+_VERIF_ENABLED = _os.environ.get("MICROJS_VERIF") == "1"
+_VERIF_HOOK = None
+
 
 def js_round(x: float, ndigits: int = 0) -> float:
     """Round using JavaScript-style 'round half away from zero' instead of Python's 'round half to even'."""
@@ -167,6 +176,8 @@ class VM:
     def _execute(self) -> JSValue:
         """Main execution loop."""
         while self.call_stack:
+            if _VERIF_ENABLED and _VERIF_HOOK is not None:
+                _VERIF_HOOK(self)
             self._check_limits()
 
             frame = self.call_stack[-1]
@@ -2296,6 +2307,8 @@ class VM:
 
             # Execute until the call returns (back to original call stack depth)
             while len(self.call_stack) > call_stack_len:
+                if _VERIF_ENABLED and _VERIF_HOOK is not None:
+                    _VERIF_HOOK(self)
                 self._check_limits()
                 frame = self.call_stack[-1]
                 func = frame.func
